@@ -107,7 +107,7 @@ PROPS.update({
         assumptions=[S_REAL, "selection is evaluated through the exported pure functions on the persisted task records; the universe is {default, dbx, other} x {c1, c2, c3, zz}", "bookkeeping equality is judged as sets per downstream (names, exclusions, user-role owner) against what the persisted tasks imply"],
     ),
     "C11": dict(
-        rig="S", residual_nondeterminism=True, variants=["etcd", "mysql"], runs=dict(quick=1500, thorough=50000),
+        rig="S", residual_nondeterminism=True, variants=["etcd", "mysql"], runs=dict(quick=3000, thorough=50000),
         nontrivial_probes=["quiescent_check", "reload_checked"],
         must_hit=["quiescent_check", "reload_checked", "rejected_request"],
         rule="Same operator sequences as C10; after every answered request, at the next quiescent point, the state shown by get, the persisted record, the in-memory table and the per-state gauges are compared for every task known to any of them; per-target reference counts and stop functions against the running tasks; registered streams against running tasks; the store is searched for leftovers of deleted tasks; after a restart every persisted task must be in memory and Running or Paused per its auto-start flag.",
